@@ -95,6 +95,16 @@ def _events(args):
             row += [["x", "CdsMissingOnChunk"]] * 5 + [["v", 0]]  # the chunk-built twin lost its CDS: judged, not hidden
         else:
             row += [["v", 0]] * 6
+        # field 23: the sizes.  len() and cds_size are chromosome-level answers (they "do not shrink"); chunk_relative_size
+        # and chunk_relative_cds_size count the bases (of the CDS) that lie on the chunk
+        row += [["v", 0]] * (21 - len(row)) + [bool(minus_chunk)] * (22 - max(len(row), 21))
+
+        def sizes():
+            z = [len(B), B.chunk_relative_size]
+            if type(B).__name__ == "TranscriptInterval":
+                z += [B.cds_size, B.chunk_relative_cds_size]
+            return z
+        row.append(E.outcome(sizes))
         return row
 
     pending = [0, False]
